@@ -42,13 +42,24 @@ pub(crate) fn range_with_prefix<'a>(
         None => namespace.to_vec(),
     };
     let end = match end {
-        Some(e) => concat(namespace, e),
-        // end is updating last byte by one
-        None => namespace_upper_bound(namespace),
+        Some(e) => Some(concat(namespace, e)),
+        // end is updating last byte by one; the bytes that wrapped over are cut off,
+        // otherwise shorter foreign keys could fall into the range; an empty or all-255
+        // namespace has no upper bound at all
+        None => {
+            let wrapped = namespace.iter().rev().take_while(|b| **b == 255).count();
+            if wrapped == namespace.len() {
+                None
+            } else {
+                let mut end = namespace_upper_bound(namespace);
+                end.truncate(namespace.len() - wrapped);
+                Some(end)
+            }
+        }
     };
 
     // get iterator from storage
-    let base_iterator = storage.range(Some(&start), Some(&end), order);
+    let base_iterator = storage.range(Some(&start), end.as_deref(), order);
 
     // make a copy for the closure to handle lifetimes safely
     let prefix = namespace.to_vec();
